@@ -224,14 +224,28 @@ class Exec:
         # the node's own nonce is a random 32-bit number in production: the whole range is drawn
         self.node = self.net.add("n", self.OWN[0], CoinState.zero(), init.get("nonce", 4242), disk=self.disk, port=self.OWN[1])
         nm = self.node.nm
-        nm.disconnected_peers = RP.load_peers_from_list([(h, p, RP.OUTGOING) for (h, p) in [self.addrs[i % len(self.addrs)] for i in init["initial"]]])
+        first = [self.addrs[i % len(self.addrs)] for i in init["initial"]]
+        self.file_rows = None          # model of peers.json (list of [host, port, dir]) or None when absent
+        if init.get("from_file") and first:
+            # the way a node starts in production: the peer book comes out of peers.json through the real load_peers (every field a
+            # freshly decoded object, not the constants of the source)
+            uniq = []
+            for a in first:
+                if a not in uniq:
+                    uniq.append(a)
+            with open("peers.json", "w") as f:
+                json.dump([[h, p, "OUTGOING", "2021-01-01T00:00:00Z"] for (h, p) in uniq], f, indent=4)
+            with env.quiet():
+                nm.disconnected_peers = DI.DiskInterface.load_peers(self.disk)
+            self.file_rows = [[h, p, "OUTGOING"] for (h, p) in uniq]
+        else:
+            nm.disconnected_peers = RP.load_peers_from_list([(h, p, RP.OUTGOING) for (h, p) in first])
         self.conns = []
         self.fails = []
         # reference back-off book: addr -> [last_attempt, k]
         self.book = {a: [None, 0] for a in [self.addrs[i % len(self.addrs)] for i in init["initial"]]}
         self.own = set()
         self.attempts = []
-        self.file_rows = None          # model of peers.json (list of [host, port, dir]) or None when absent
         self.flags = {"retries_after_failure": 0, "greetings": 0, "duplicate_keys": 0, "self_connections": 0, "attempts": 0, "give_ups_observed": 0, "crash_points": 0, "file_writes": 0}
         lp = self.node.lp
         orig = lp.start_outgoing_connection
@@ -540,8 +554,10 @@ class Machine(RuleBasedStateMachine):
                 nonce=st.one_of(st.integers(0, (1 << 32) - 1), st.sampled_from([0, 1, (1 << 31) - 1, 1 << 31, (1 << 32) - 1])))
     def setup(self, initial, maxk, big, nonce):
         big = big and Machine.tier == "thorough"
-        self.init = {"initial": list(range(130)) if big else initial, "max_attempts": maxk, "big": big, "nonce": nonce}
+        self.init = {"initial": list(range(130)) if big else initial, "max_attempts": maxk, "big": big, "nonce": nonce, "from_file": nonce % 2 == 0}
         self.ex = Exec(self.init)
+        if self.init["from_file"]:
+            Machine.res.count("machines_started_from_a_peer_file")
 
     def do(self, op):
         if self.dead or self.ex is None:
